@@ -17,16 +17,16 @@ sys.path.insert(0, os.path.join(VERIF, "tools"))
 import vlib  # noqa: E402
 
 
-def build(work):
+def build(work, char="signed"):
     d = os.path.join(work, "replay_src")
-    exe = os.path.join(d, "replay")
+    exe = os.path.join(d, "replay_" + char)
     if os.path.exists(exe):
         return exe, ""
     os.makedirs(d, exist_ok=True)
     for sub in ("src", "include"):
         if not os.path.exists(os.path.join(d, sub)):
             shutil.copytree(os.path.join(vlib.REPO, sub), os.path.join(d, sub))
-    cmd = ["gcc", "-g", "-O1", "-w", "-fsanitize=address,undefined", "-fno-sanitize-recover=undefined", "-DPOLYSEED_STATIC",
+    cmd = ["gcc", "-g", "-O1", "-w", "-f%s-char" % char, "-fsanitize=address,undefined", "-fno-sanitize-recover=undefined", "-DPOLYSEED_STATIC",
            "-I" + os.path.join(d, "include"), "-I" + d, "-I" + VERIF, os.path.join(VERIF, "replay", "replay.c")] + \
           sorted(glob.glob(os.path.join(d, "src", "lang_*.c"))) + ["-o", exe]
     p = subprocess.run(cmd, capture_output=True, text=True, timeout=600)
@@ -55,10 +55,11 @@ class Cex:
         self.last = inputs.get("last", inputs) if isinstance(inputs, dict) else {}
         self.first = inputs.get("first", {}) if isinstance(inputs, dict) else {}
 
-    def scalar(self, name, default=0):
+    def scalar(self, name, default=0, first=False):
+        src = self.first if first else self.last
         for k in (name, name + "!0@1"):
-            if k in self.last:
-                return _int(self.last[k], default)
+            if k in src:
+                return _int(src[k], default)
         return default
 
     def obj_of(self, param):
@@ -128,7 +129,7 @@ def command_for(payload):
     if unit == "U.bd.decode":
         return ["bday_decode", str(cx.scalar("birthday"))]
     if unit == "U.ft.enable":
-        return ["enable", str(cx.scalar("reserved_features") & 0xFFFFFFFF), str(cx.scalar("mask") & 0xFFFFFFFF)]
+        return ["enable", str(cx.scalar("reserved_features", first=True) & 0xFFFFFFFF), str(cx.scalar("mask", first=True) & 0xFFFFFFFF)]
     if unit == "U.api.keygen":
         obj = cx.obj_of("seed")
         return ["keygen", cx.seed_hex(obj), str(cx.scalar("coin") & 2047), str(min(max(cx.scalar("key_size"), 1), 64))] if obj else None
@@ -144,6 +145,28 @@ def command_for(payload):
     if unit == "U.api.crypt":
         mask = bytes(x & 0xFF for x in cx.array("G.kdf_out", 32, first=False)).hex()
         return ["crypt", cx.seed_hex("old", first=False), mask]
+    if unit in ("U.api.decode", "U.api.decode_explicit"):
+        names = {"POLYSEED_OK": 0, "POLYSEED_ERR_NUM_WORDS": 1, "POLYSEED_ERR_LANG": 2, "POLYSEED_ERR_CHECKSUM": 3,
+                 "POLYSEED_ERR_UNSUPPORTED": 4, "POLYSEED_ERR_FORMAT": 5, "POLYSEED_ERR_MEMORY": 6, "POLYSEED_ERR_MULT_LANG": 7}
+        st_txt = str(cx.last.get("h_pd_status", "POLYSEED_OK"))
+        st = next((v for k, v in names.items() if st_txt.endswith(k)), _int(st_txt, 0))
+        idx = [x & 2047 for x in cx.array("h_pd_idx", 16, first=False)]
+        af = 1 if str(cx.last.get("G.alloc_failed", "")).upper() in ("TRUE", "1") else 0
+        return (["decode", "1" if unit.endswith("explicit") else "0", str(_int(cx.last.get("h_split_ret"), 16)), str(st)]
+                + [str(i) for i in idx] + [str(cx.scalar("coin") & 2047), str(af), str(cx.scalar("reserved_features") & 0xFFFFFFFF)])
+    if unit in ("U.lang.phrase_decode", "U.lang.phrase_decode_explicit"):
+        return ["phrase_auto", "2"]
+    if unit == "U.api.encode":
+        if "seed.birthday" not in cx.last:
+            return None
+        comp = str(cx.last.get("h_lang.compose", "")).upper() in ("TRUE", "1")
+        return ["encode", cx.seed_hex("seed", first=False), str(cx.scalar("coin") & 2047), "3" if comp else "0"]
+    if unit == "B.str.nfkd_lazy":
+        b = bytes(x & 0xFF for x in cx.array("str", 16, first=True)).split(b"\x00")[0]
+        return ["nfkd_lazy", b.hex() or "00"]
+    if unit == "U.str.split":
+        b = bytes(x & 0xFF for x in cx.array("g_orig", 576, first=True)).split(b"\x00")[0]
+        return ["split", b.hex() or "00"]
     if unit.startswith("B.cmp."):
         key = bytes(x & 0xFF for x in cx.array("key", 16, first=False))
         elm = bytes(x & 0xFF for x in cx.array("elm", 16, first=False))
@@ -152,8 +175,8 @@ def command_for(payload):
     return None
 
 
-def run_cmd(args, work):
-    exe, err = build(work)
+def run_cmd(args, work, char="signed"):
+    exe, err = build(work, char)
     if exe is None:
         return {"reproduced": False, "detail": "replay driver does not build against the sources under test: " + err}
     env = dict(os.environ, ASAN_OPTIONS="detect_leaks=0:abort_on_error=0", UBSAN_OPTIONS="print_stacktrace=0")
@@ -186,7 +209,7 @@ def try_native(payload, work):
     if not args:
         return {"reproduced": False, "detail": "no native replayer for this unit (lemma, contract-stub harness or ghost-only obligation); "
                 "the verifier's counterexample values are in 'counterexample'"}
-    return run_cmd(args, work)
+    return run_cmd(args, work, payload.get("char") or "signed")
 
 
 def replay_file(path):
@@ -198,7 +221,7 @@ def replay_file(path):
     if nat.get("command"):
         work = os.path.join(VERIF, ".work", "replay.%d" % os.getpid())
         os.makedirs(work, exist_ok=True)
-        r = run_cmd(nat["command"][1:], work)
+        r = run_cmd(nat["command"][1:], work, p.get("char") or "signed")
         print(json.dumps(r, indent=1))
         shutil.rmtree(work, ignore_errors=True)
         return 1 if r.get("reproduced") else 0
